@@ -8,7 +8,10 @@ package commands
 //   * writes one correspondence case per file (model: lean/EgoVerif/C13, driver op `file`),
 //   * checks the model-free oracle: every block before the first @fail is reported exactly once, in
 //     order, with the verdict the generator intended; nothing after an @fail; the run stops iff an
-//     @fail ran; the summary line counts what was reported.
+//     @fail ran; the summary line counts what was reported;
+//   * checks that a file leaves the process-global compiler settings a test can override with
+//     `@compile unknown= unused= optimize=` as a file without any @compile leaves them (a later test or
+//     file compiled under another test's override is not isolated from it).
 // A watchdog turns a run that does not finish (a misrouted catch can loop for ever) into a failure.
 
 import (
@@ -53,6 +56,7 @@ var c13Templates = []c13Tmpl{
 	{"p-bare-return", 'P', 0, 0, "-", false, "{\n    if c13fact(3) == 6 {\n        return\n    }\n    @fail \"not reached\"\n}\n"},
 	{"p-bare-statements", 'P', 0, 0, "-", false, "v%d := c13fact(4)\n@assert v%d == 24\n"},
 	{"p-range-return", 'P', 0, 2, "-", false, "{\n    for _, v := range []int{1, 2, 3} {\n        if v == 2 {\n            return\n        }\n    }\n}\n"},
+	{"p-late-bound", 'P', 0, 0, "-", false, "{\n    n%d := 0\n    if n%d > 0 {\n        n%d = c13late%d\n    }\n    @assert n%d == 0\n}\n"},
 	{"p-defer", 'P', 0, 0, "-", false, "{\n    func g%d() int {\n        defer func() { c13shared = c13shared + 1 }()\n        return 4\n    }\n    @assert g%d() == 4\n}\n"},
 	// ---- assertion failures
 	{"a-assert", 'A', 0, 0, "-", false, "{\n    @assert 1 == 2\n}\n"},
@@ -89,6 +93,91 @@ var c13Templates = []c13Tmpl{
 	{"f-fail-bare", 'F', 0, 0, "-", false, "{\n    @fail\n}\n"},
 	{"f-fail-in-try", 'F', 0, 0, "-", false, "{\n    try {\n        @fail \"halt in try\"\n    } catch {\n    }\n}\n"},
 	{"f-fail-in-func", 'F', 0, 1, "-", false, "{\n    func ff%d() {\n        @fail \"halt in func\"\n    }\n    ff%d()\n}\n"},
+}
+
+// c13Override marks the templates whose body installs a compiler-setting override with
+// `@compile unknown=|unused=|optimize=`; c13LastOnly marks the bodies that may only be the last block of
+// a file (an `@compile eof=` whose marker is missing is lexical damage like an unterminated raw string:
+// the rest of the file belongs to it). c13Dependents are the templates whose verdict depends on the
+// default compiler settings (unknown names are left to run time; an unused variable is an error).
+var (
+	c13Override   = map[string]bool{}
+	c13LastOnly   = map[string]bool{}
+	c13Dependents = []string{"p-late-bound", "r-unknown-symbol", "c-unused-variable"}
+)
+
+// The @compile templates. Every override (unknown=true, unused=false, optimize=2; the defaults of
+// `ego test` are false, true, 0) appears in directives that compile (the block compiles, or its error
+// is caught, or it is raised at run time) and in directives that fail at directive level AFTER the flags
+// were read: a catch clause that does not compile, a catch variable that is not a name, a missing ")",
+// a catch variable that is never used, a missing eof marker.
+func init() {
+	add := func(tag string, kind byte, src string) {
+		c13Templates = append(c13Templates, c13Tmpl{tag, kind, 0, 0, "-", false, src})
+		c13Override[tag] = true
+	}
+
+	const okBlock = "        v%d := 1\n        fmt.Println(v%d)\n"
+
+	for _, ov := range [][2]string{{"unknown", "unknown=true"}, {"unused", "unused=false"}, {"optimize", "optimize=2"}} {
+		head := "{\n    @compile block " + ov[1] + " {\n" + okBlock
+		add("c-compile-"+ov[0]+"-catch-typo", 'C', head+"    } catch(e) {\n        pring \"typo\"\n    }\n}\n")
+		add("c-compile-"+ov[0]+"-catch-bad-assert", 'C', head+"    } catch(e) {\n        @assert e.Code() = \"x\"\n    }\n}\n")
+		add("c-compile-"+ov[0]+"-catch-var-not-a-name", 'C', head+"    } catch(5) {\n    }\n}\n")
+		add("c-compile-"+ov[0]+"-catch-missing-paren", 'C', head+"    } catch(e {\n    }\n}\n")
+		add("c-compile-"+ov[0]+"-catch-var-unused", 'C', head+"    } catch(e) {\n    }\n}\n")
+		add("c-compile-"+ov[0]+"-missing-eof-marker", 'C',
+			"{\n    @compile block "+ov[1]+" eof=\"$END\"\n"+okBlock+"    catch(e) {\n        @assert e != nil\n    }\n}\n")
+		c13LastOnly["c-compile-"+ov[0]+"-missing-eof-marker"] = true
+	}
+
+	// the block fails under the override AND the catch clause does not compile
+	add("c-compile-unknown-block-fails-catch-typo", 'C',
+		"{\n    f%d := false\n    @compile block unknown=true {\n        u%d := c13nosuchA%d\n        fmt.Println(u%d)\n    } catch(e) {\n        f%d = true\n        @assert e.Code() = \"symbol.not.found\"\n    }\n    @assert f%d == true\n}\n")
+
+	// directives that compile
+	add("p-compile-unknown-caught", 'P',
+		"{\n    f%d := false\n    @compile block unknown=true {\n        u%d := c13nosuchB%d\n        fmt.Println(u%d)\n    } catch(e) {\n        f%d = e != nil\n    }\n    @assert f%d == true\n}\n")
+	add("p-compile-unknown-nothing-unknown", 'P',
+		"{\n    @compile block unknown=true {\n"+okBlock+"    }\n    @assert c13fact(3) == 6\n}\n")
+	add("p-compile-unused-off", 'P', "{\n    @compile block unused=false {\n        w%d := 5\n    }\n    @assert true\n}\n")
+	add("p-compile-unused-on-caught", 'P',
+		"{\n    f%d := false\n    @compile block unused=true {\n        w%d := 5\n    } catch {\n        f%d = true\n    }\n    @assert f%d == true\n}\n")
+	add("p-compile-optimize", 'P', "{\n    @compile block optimize=2 {\n        k%d := 1 + 2\n        fmt.Println(k%d)\n    }\n    @assert true\n}\n")
+	add("p-compile-optimize-off-all-flags", 'P',
+		"{\n    @compile block opt=off unused=on unknown=off {\n"+okBlock+"    } catch(e) {\n        @fail e.Error()\n    }\n}\n")
+	add("p-compile-eof-unknown-caught", 'P',
+		"{\n    f%d := false\n    @compile block unknown=true eof=\"$END\"\n        u%d := c13nosuchC%d\n        fmt.Println(u%d)\n    $END\n    catch(e) {\n        f%d = e != nil\n    }\n    @assert f%d == true\n}\n")
+	add("p-compile-program-unknown-optimize", 'P',
+		"{\n    f%d := false\n    @compile unknown=true optimize=1 {\n        func c13g%d() int {\n            return c13nosuchD%d\n        }\n    } catch(e) {\n        f%d = e != nil\n    }\n    @assert f%d == true\n}\n")
+	add("r-compile-unknown-not-caught", 'R',
+		"{\n    @compile block unknown=true {\n        u%d := c13nosuchE%d\n        fmt.Println(u%d)\n    }\n}\n")
+	add("r-compile-optimize-then-error", 'R',
+		"{\n    @compile block optimize=2 unused=false {\n        k%d := 2\n    }\n    @error \"boom %d\"\n}\n")
+	add("a-compile-unused-off-then-assert", 'A',
+		"{\n    @compile block unused=false {\n        w%d := 5\n    } catch(e) {\n        @fail e.Error()\n    }\n    @assert 1 == 2\n}\n")
+}
+
+// c13Settings reads the three process-global settings an @compile directive can override.
+func c13Settings() string {
+	return "unused=" + settings.Get(defs.UnusedVarsSetting) + " unknown=" + settings.Get(defs.UnknownVarSetting) +
+		" optimize=" + settings.Get(defs.OptimizerSetting)
+}
+
+func c13RestoreSettings(saved [3]string) {
+	settings.SetDefault(defs.UnusedVarsSetting, saved[0])
+	settings.SetDefault(defs.UnknownVarSetting, saved[1])
+	settings.SetDefault(defs.OptimizerSetting, saved[2])
+}
+
+func c13Tag(tag string) int {
+	for i, tm := range c13Templates {
+		if tm.tag == tag {
+			return i
+		}
+	}
+
+	panic("no template " + tag)
 }
 
 // c13Prelude is top-level code shared by every test of a file.
@@ -194,8 +283,10 @@ type c13Result struct {
 	passed   int // from the summary line, -1 if absent
 	failed   int
 	returned error
-	stdout   string
-	stderr   string
+	// the compiler settings (c13Settings) when TestAction returned, and what a file without @compile leaves
+	settings, settingsBefore string
+	stdout                   string
+	stderr                   string
 }
 
 var (
@@ -227,6 +318,7 @@ func c13Run(dir string, seq int, src string, limit time.Duration) c13Result {
 
 	select {
 	case res.returned = <-done:
+		res.settings = c13Settings()
 	case <-time.After(limit):
 		res.hung = true
 	}
@@ -275,10 +367,11 @@ func c13Run(dir string, seq int, src string, limit time.Duration) c13Result {
 
 // c13Class names the failing class from the shape of the input and of the failure.
 func c13Class(f c13File, res c13Result, want []string) string {
-	stale, unbalanced, runtime := false, false, false
+	stale, unbalanced, runtime, override := false, false, false, false
 
 	for _, blk := range f.blocks {
 		t := c13Templates[blk.tmpl]
+		override = override || c13Override[t.tag]
 		stale = stale || t.stale
 		unbalanced = unbalanced || t.brace != 0
 		runtime = runtime || t.kind == 'A' || t.kind == 'R'
@@ -287,6 +380,8 @@ func c13Class(f c13File, res c13Result, want []string) string {
 	got := strings.Join(res.lines, ",")
 
 	switch {
+	case override && res.settings != res.settingsBefore:
+		return "compile-directive-override-outlives-test"
 	case stale && (res.hung || res.stopped || len(res.lines) > len(want)):
 		return "stale-try-misroutes-error"
 	case unbalanced && len(res.lines) < len(want) && strings.HasPrefix(strings.Join(want, ","), got):
@@ -307,7 +402,19 @@ func c13ByKind(kind byte, braceOK bool) []int {
 			k = 'C'
 		}
 
-		if k == kind && (braceOK || t.brace == 0) {
+		if k == kind && (braceOK || t.brace == 0) && !c13LastOnly[t.tag] {
+			out = append(out, i)
+		}
+	}
+
+	return out
+}
+
+func c13LastOnlyList() []int {
+	var out []int
+
+	for i, t := range c13Templates {
+		if c13LastOnly[t.tag] {
 			out = append(out, i)
 		}
 	}
@@ -408,8 +515,23 @@ func TestVerifC13(t *testing.T) {
 		passT := c13ByKind('P', false)[0]
 		// corpus 1: every template alone, then followed and preceded by a passing test
 		for i, tm := range c13Templates {
-			if !tm.stale {
+			switch {
+			case c13LastOnly[tm.tag]:
+				files = append(files, mk([]int{i}, false), mk([]int{passT, i}, false))
+			case !tm.stale:
 				files = append(files, mk([]int{i}, false), mk([]int{passT, i, passT}, false))
+			}
+		}
+		// corpus 1b: every body that overrides a compiler setting, followed by each body whose verdict
+		// depends on the default settings (and the reverse order for the last-only bodies)
+		for i, tm := range c13Templates {
+			for _, dep := range c13Dependents {
+				switch {
+				case c13LastOnly[tm.tag]:
+					files = append(files, mk([]int{c13Tag(dep), i}, false))
+				case c13Override[tm.tag]:
+					files = append(files, mk([]int{i, c13Tag(dep), passT}, false))
+				}
 			}
 		}
 		// corpus 2: all orders of the five outcomes (+ a passing test at the end)
@@ -448,15 +570,26 @@ func TestVerifC13(t *testing.T) {
 				}
 			}
 
+			// a body with a missing eof marker can only end a file
+			if lo := c13LastOnlyList(); rnd.Intn(12) == 0 {
+				tmpls[k-1] = lo[rnd.Intn(len(lo))]
+			}
+
 			files = append(files, mk(tmpls, rnd.Intn(3) == 0))
 		}
 	}
+
+	// what a file without any @compile leaves behind in the compiler settings (the reference for every file)
+	c13Run(dir, -1, c13File{blocks: []c13Block{{id: 0, tmpl: c13Tag("p-assert"), desc: "t0x reference"}}}.source(), 90*time.Second)
+	reference := c13Settings()
+	referenceValues := [3]string{settings.Get(defs.UnusedVarsSetting), settings.Get(defs.UnknownVarSetting), settings.Get(defs.OptimizerSetting)}
 
 	distinct := map[string]bool{}
 
 	for seq, f := range files {
 		src := f.source()
 		res := c13Run(dir, seq, src, 90*time.Second)
+		res.settingsBefore = reference
 		want, wantStop := f.want()
 		got := strings.Join(res.lines, ",")
 
@@ -510,6 +643,19 @@ func TestVerifC13(t *testing.T) {
 			bad = fmt.Sprintf("summary line counts %d passed, %d failed", res.passed, res.failed)
 		case (res.returned == nil) != (!wantStop && !strings.Contains(wantS, "=F")):
 			bad = fmt.Sprintf("TestAction returned %v", res.returned)
+		case res.settings != reference:
+			bad = "the file left the compiler settings at {" + res.settings + "}; a file without @compile leaves {" + reference +
+				"}: every test or file compiled later in this process runs under this file's @compile override"
+		}
+
+		if !res.hung && res.settings != reference {
+			// judge the following files on their own
+			stats.Inc("settings_left_changed")
+			c13RestoreSettings(referenceValues)
+		}
+
+		if bad != "" && !res.hung && res.settings != reference && !strings.HasPrefix(bad, "the file left") {
+			bad += "; compiler settings after the file {" + res.settings + "}, after a file without @compile {" + reference + "}"
 		}
 
 		if bad != "" {
